@@ -6,6 +6,7 @@ import (
 	"io"
 	"os"
 	"path"
+	"runtime"
 	"sort"
 	"strings"
 	"sync"
@@ -463,6 +464,12 @@ func writePairwiseAlignment(p string, w int, cPair chan alignPair, cWriteDone ch
 // ToPairAlign converts a SAM file containing pairwise alignments between assembled genomes into pairwise fasta-format alignments,
 // optionally including the reference sequence and insertions relative to it, optionally trimmed to coordinates in (degapped-)reference space
 func ToPairAlign(samIn, ref io.Reader, outpath string, wrap int, trimStart int, trimEnd int, omitRef bool, omitIns bool, threads int) error {
+
+	// as in closest: no usable thread count means "as many as there are processors" (a pool of no workers would
+	// leave every record in its channel)
+	if threads < 1 {
+		threads = runtime.NumCPU()
+	}
 
 	// NB probably uncomment the below and use it for checks (e.g. for
 	// reference length)
